@@ -3,5 +3,6 @@ CONSTANTS
   Names <- LifeNames
   Passwords <- LifePasswords
   BlobSlots <- LifeSlots
+  GivenKeys <- LifeGiven
 INVARIANT Emit
 CHECK_DEADLOCK FALSE
